@@ -204,10 +204,14 @@ func (m *Minifier) apply(vis *minifyVisitor) (madeReplacements bool) {
 	}
 	// sort by depth
 	slices.SortStableFunc(replacements, func(a, b *stats) int {
-		if a.depth == b.depth {
-			return strings.Compare(b.enclosingTypeName, a.enclosingTypeName)
+		if a.depth != b.depth {
+			return b.depth - a.depth
 		}
-		return b.depth - a.depth
+		if c := strings.Compare(b.enclosingTypeName, a.enclosingTypeName); c != 0 {
+			return c
+		}
+		// replacements come out of a map: break ties by first occurrence, so fragment names do not depend on map order
+		return a.items[0].selectionSet - b.items[0].selectionSet
 	})
 	for _, s := range replacements {
 		m.replaceItems(s)
